@@ -37,6 +37,8 @@ def gen_tables(crate):
     allkw = kw['strict'] + kw['reserved']
     s = 'const KW: &[&[u8]] = &[%s];\nconst NONRAW: &[&[u8]] = &[%s];\n' % (
         ', '.join('b"%s"' % k for k in allkw), ', '.join('b"%s"' % k for k in kw['non_raw']))
+    lens = sorted({len(k) for k in allkw})
+    s += 'const HAS_KW_OF_LEN: [bool; 16] = [%s];\n' % ', '.join('true' if i in lens else 'false' for i in range(16))
     open(os.path.join(crate, 'src/kw_table.rs'), 'w').write(s)
     tb = json.load(open(os.path.join(VERIF, 'reference/builtins.json')))['table']
     var = {'i8': 'I8', 'i16': 'I16', 'i32': 'I32', 'i64': 'I64', 'u8': 'U8', 'u16': 'U16', 'u32': 'U32', 'u64': 'U64',
@@ -45,6 +47,8 @@ def gen_tables(crate):
     for k, v in tb.items():
         lines.append('    if s.len() == %d && s == b"%s" { return Some(RustFieldType::%s); }' % (len(k), k, var[v]))
     lines.append('    None\n}\n')
+    blens = sorted({len(k) for k in tb})
+    lines.append('const HAS_BUILTIN_OF_LEN: [bool; 24] = [%s];\n' % ', '.join('true' if i in blens else 'false' for i in range(24)))
     open(os.path.join(crate, 'src/builtin_table.rs'), 'w').write('\n'.join(lines))
 
 
@@ -193,13 +197,17 @@ def c19(tier):
         bounds_text='attribute vectors <= 2; error strings 1 byte; one call per harness')
 
 
-def c14kw(tier):
+def c14_kw_part(rep, tier):
     hs = e1.list_harnesses('c14')
-    if tier == 'quick':
-        hs = [h for h in hs if int(h.split('_')[-1]) <= 8]
-    return hs
+    return e1_part(rep, 'C14', 'c14', hs,
+                   functions=['model/field.rs rename_keywords (compiled unmodified by #[path])'],
+                   bounds_text='every identifier-shaped string of 1..10 bytes over [a-z0-9_S] (covers every snake_case keyword; the longest keyword has 8 letters)',
+                   per_harness_timeout=600)
 
 
-def c02table(tier):
+def c02_table_part(rep, tier):
     hs = e1.list_harnesses('c02')
-    return hs
+    return e1_part(rep, 'C02', 'c02', hs, jobs=6,
+                   functions=['model/field.rs as_rust_type, split_type (compiled unmodified by #[path])'],
+                   bounds_text='every byte string of 1..19 printable ASCII bytes without ":" as a type name',
+                   per_harness_timeout=1500)
